@@ -103,6 +103,8 @@ func GenRequests(g *tape.Stream, fg *tape.Stream, s *Setup, p *Profile) [][]*Req
 					hot, hotChain, hotMethods = h.path, h.chain, h.methods
 				}
 				q.Path, q.Tag, q.Chain = hot, "hot", hotChain
+			case s.Static != nil && g.Intn(4) == 1:
+				q.Path, q.Tag, q.Chain = StaticPaths[g.Intn(len(StaticPaths))], "static", -99
 			case g.Chance(p.HostilePm) || len(s.Routes) == 0:
 				q.Path, q.Tag, q.Chain = Hostile[g.Intn(len(Hostile))], "hostile", -1
 			default:
